@@ -307,9 +307,10 @@ pub fn sample_strategy(rng: &mut Rng) -> Strategy {
 pub fn sample_knobs(rng: &mut Rng, concurrency: usize, include_dir: bool) -> Knobs {
     Knobs {
         concurrency,
+        // in write calls (two per message: header, body)
         out_capacity: match rng.below(4) {
-            0 => Some(512),
-            1 => Some(65536),
+            0 => Some(2),
+            1 => Some(16),
             _ => None,
         },
         max_chunks: [1, 2, 4][rng.below(3)],
